@@ -1667,6 +1667,28 @@ func (c *FCtx) appendPhi(p *ssa.Phi, l *Loop, init, step ssa.Value, selfEdge boo
 	if !conditional && l.dominatesAllLatches(call.Block()) {
 		return mkMap(coll, body)
 	}
+	// conditional append under one test of the element: a filtered copy  filter(coll, body, guard)
+	if cb := call.Block(); len(cb.Preds) == 1 && l.Body[cb.Preds[0]] {
+		pb := cb.Preds[0]
+		if ifi, ok := pb.Instrs[len(pb.Instrs)-1].(*ssa.If); ok && (pb == l.Header || l.dominatesAllLatches(pb) || len(pb.Preds) == 1) {
+			guard := c.Term(ifi.Cond)
+			if pb.Succs[1] == cb && pb.Succs[0] != cb {
+				guard = Not(guard)
+			}
+			// the test block itself must be reached unconditionally in every iteration (otherwise there are further guards)
+			uncond := pb == l.Header || l.dominatesAllLatches(pb)
+			if !uncond && len(pb.Preds) == 1 && pb.Preds[0] == l.Header {
+				if hi, isIf := l.Header.Instrs[len(l.Header.Instrs)-1].(*ssa.If); isIf {
+					_ = hi
+					uncond = true // the loop's own continuation test
+				}
+			}
+			gg := generalize(guard, l, coll)
+			if uncond && closedTerm(gg) && !gg.Contains(func(t *Term) bool { return isElemOf(t, l) }) {
+				return T("filter", "", coll, body, gg)
+			}
+		}
+	}
 	// conditional append: guards are resolved later by the facts engine; mark with the call position
 	return T("mapif", funcID(c.Fn)+"#"+call.Name(), coll, body)
 }
